@@ -611,6 +611,13 @@ def r46(e: Engine, rep: Report):
                           % '/'.join(prims))
 
 
+def _outer(f):
+    """the method a nested function (closure) is defined in"""
+    while getattr(f, 'parent', None) is not None:
+        f = f.parent
+    return f
+
+
 def r48(e: Engine, rep: Report):
     """The envelope file is written once, when the message is stored.  Any
     later change of a message goes to the meta file alone, so that every
@@ -627,8 +634,9 @@ def r48(e: Engine, rep: Report):
                     isinstance(x.ctx, ast.Load):
                 n += 1
                 rep.evaluations += 1
-                rep.check(f.cls is not None and f.cls.qname == DISK and
-                          f.name in owners, 'R4.8', f.qname,
+                o = _outer(f)
+                rep.check(o.cls is not None and o.cls.qname == DISK and
+                          o.name in owners, 'R4.8', f.qname,
                           'use of write_env',
                           '%s rewrites the envelope file of a stored '
                           'message: together with the meta file that is two '
@@ -653,8 +661,9 @@ def r47(e: Engine, rep: Report):
                         x.ctx, ast.Load):
                 n += 1
                 rep.evaluations += 1
-                rep.check(f.cls is not None and f.cls.qname == DISK and
-                          f.name in common.owner_closure(e, DISK, {'remove'}),
+                o = _outer(f)
+                rep.check(o.cls is not None and o.cls.qname == DISK and
+                          o.name in common.owner_closure(e, DISK, {'remove'}),
                           'R4.7', f.qname,
                           'use of %s' % x.attr,
                           '%s deletes message files outside '
